@@ -196,11 +196,38 @@ func OracleCrash(caseID int, pre []byte, op Op, thorough bool, st *CrashStats) (
 			add("crash %s: the file no longer loads: %v", where, err)
 			return
 		}
-		_ = f
 		ci, err := DecodeImage(img)
 		if err != nil {
 			add("crash %s: independent decoder fails: %v", where, err)
 			return
+		}
+		// ... and through the library: every untouched object is still enumerated, with its
+		// attributes and its bytes
+		seen := map[uint32]sif.Descriptor{}
+		f.WithDescriptors(func(d sif.Descriptor) bool {
+			if _, dup := seen[d.ID()]; !dup {
+				seen[d.ID()] = d
+			}
+			return false
+		})
+		for _, d := range preImg.Descs {
+			if !d.Used || target[d.ID] {
+				continue
+			}
+			ld, ok := seen[d.ID]
+			if !ok {
+				add("crash %s: the loaded image no longer enumerates untouched object %d", where, d.ID)
+				continue
+			}
+			if ld.Offset() != d.Off || ld.Size() != d.Size || int32(ld.DataType()) != d.Type || ld.GroupID() != d.GroupID() {
+				add("crash %s: the loaded image reports other attributes for untouched object %d", where, d.ID)
+				continue
+			}
+			if want, ok := region(pre, d); ok {
+				if got, err := ld.GetData(); err != nil || !bytes.Equal(got, want) {
+					add("crash %s: the loaded image returns other bytes for untouched object %d (err=%v)", where, d.ID, err)
+				}
+			}
 		}
 		for i, d := range preImg.Descs {
 			if !d.Used || target[d.ID] {
